@@ -33,6 +33,30 @@ def dt_of(err, label):
     return calendar.timegm(tuple(int(u.group(i)) for i in range(1, 7)) + (0, 0, 0))
 
 
+def per_file_first_last(err):
+    """{file name: (first, last)} of the per-file 'Printed:' sections (epoch seconds, None when 'None Found')"""
+    out = {}
+    parts = re.split(rb"^File: ", err, flags=re.M)
+    for part in parts[1:]:
+        name = part.split(b"\n", 1)[0].strip().decode(errors="replace")
+        sec = part.split(b"Processed:", 1)[0]
+        if b"Printed:" not in sec:
+            continue
+        sec = sec.split(b"Printed:", 1)[1]
+        vals = []
+        shown = True
+        for label in (rb"datetime first", rb"datetime last"):
+            m = re.search(rb"^\s*" + label + rb"\s*:\s*(.*)$", sec, re.M)
+            if not m:
+                shown = False      # (record / event / entry files have no such lines in their Printed section)
+                break
+            u = RE_DT.search(m.group(1))
+            vals.append(calendar.timegm(tuple(int(u.group(i)) for i in range(1, 7)) + (0, 0, 0)) if u else None)
+        if shown:
+            out[name] = tuple(vals)
+    return out
+
+
 def per_file_bytes(err):
     """{file name: printed bytes} from the per-file sections"""
     out = {}
@@ -72,7 +96,10 @@ def run(pid, tier, seed):
                    ["--separator=\u00a7\u00a7\\n"], ["-n", "--separator=\u2500"], ["-p", "--prepend-separator=\u2502", "--separator=\u65e5\\n"]]
         windows = {0: [[], ["-a", "2023-03-10T03:49:43.561000+00:00"], ["-a", "2023-03-10T03:49:43.560+00:00", "-b", "2023-03-10T03:49:43.566+00:00"]],
                    1: [[], ["-b", "2023-04-02T07:07:00.789680+00:00"]],
-                   2: [[], ["-a", gen.fmt_ts(gen.BASE + 2, 0, 0, 0)], ["-a", "2030-01-01"]]}
+                   # (windows that leave exactly one message to a file, and to the whole run)
+                   2: [[], ["-a", gen.fmt_ts(gen.BASE + 2, 0, 0, 0)], ["-a", "2030-01-01"],
+                       ["-a", gen.fmt_ts(gen.BASE + 4, 0, 0, 0), "-b", gen.fmt_ts(gen.BASE + 6, 0, 0, 0)],
+                       ["-a", gen.fmt_ts(gen.BASE + 7, 0, 0, 0), "-b", gen.fmt_ts(gen.BASE + 7, 0, 0, 0)]]}
         jobs = []
         for si in range(len(sets)):
             for win in windows[si]:
@@ -180,6 +207,17 @@ def run(pid, tier, seed):
                 nm = files[w]
                 if pf.get(nm) != n:
                     rep.violation("per-file-bytes", "file %s: summary says %s bytes, %d were written for it" % (nm, pf.get(nm), n), rec)
+            # per file: first / last printed instants
+            pfl = per_file_first_last(err)
+            spans = {}
+            for e in prints:
+                a_, b_ = spans.get(e["w"], (e["ds"], e["ds"]))
+                spans[e["w"]] = (min(a_, e["ds"]), max(b_, e["ds"]))
+            for w, (a_, b_) in spans.items():
+                nm = files[w]
+                if nm in pfl and pfl[nm] != (a_, b_):
+                    rep.violation("per-file-first-last", "file %s: summary says first/last printed %s, its %d printed messages span %s..%s"
+                                  % (nm, pfl[nm], sum(1 for e in prints if e["w"] == w), a_, b_), rec)
             # first / last printed instants, filter bounds
             if prints:
                 first, last = min((e["ds"], e["dn"]) for e in prints), max((e["ds"], e["dn"]) for e in prints)
